@@ -86,7 +86,7 @@ func IsCycleDetected(err error) bool {
 		switch de.(type) {
 		case *errCycleDetected:
 			return true
-		case errConstructorFailed:
+		case errConstructorFailed, errDecoratorFailed:
 			return false
 		}
 		next, ok := errors.Unwrap(de).(Error)
